@@ -1106,3 +1106,91 @@ def install_imports():
     sx.IMPORTS['numpy.linalg'] = linalg
     sx.IMPORTS[('scipy.signal', 'medfilt')] = medfilt
     sx.IMPORTS[('scipy.signal', 'medfilt2d')] = medfilt2d
+    install_linalg()
+
+
+# ------------------------------------------------------------------------------------------ scipy.linalg stubs
+def _band_to_dense(ab, lower):
+    bw, n = ab.shape
+    A = [[R(Fraction(0)) for _ in range(n)] for _ in range(n)]
+    for i in range(bw):
+        for j in range(n):
+            if lower:
+                r, c = j + i, j
+            else:
+                r, c = j - (bw - 1 - i), j
+            if 0 <= r < n and 0 <= c < n:
+                v = ab[i, j]
+                v = v if isinstance(v, R) else R.lift(v)
+                A[r][c] = v
+                A[c][r] = v
+    return A
+
+
+def _is_spd(A):
+    """leading principal minors > 0, by elimination in exact arithmetic (forks when symbolic)."""
+    n = len(A)
+    M = [row[:] for row in A]
+    for c in range(n):
+        if not builtins.bool(M[c][c] > 0):
+            return False
+        for r in range(c + 1, n):
+            if isinstance(M[r][c], R) and M[r][c].is_concrete() and M[r][c].v == 0:
+                continue
+            f = M[r][c] / M[c][c]
+            M[r] = [x - f * y for x, y in zip(M[r], M[c])]
+    return True
+
+
+def cholesky_banded(ab, overwrite_ab=False, lower=False, check_finite=True):
+    """contract stub for scipy.linalg.cholesky_banded (LAPACK pbtrf): raises LinAlgError iff the
+    matrix is not positive definite; the returned 'factor' is only ever consumed by
+    cho_solve_banded below, whose contract is 'returns the solution of A x = b'."""
+    import scipy.linalg
+    if not core.active() or not is_objarr(ab):
+        return scipy.linalg.cholesky_banded(ab, overwrite_ab=overwrite_ab, lower=lower, check_finite=check_finite)
+    A = _band_to_dense(ab, lower)
+    if not _is_spd(A):
+        raise _np.linalg.LinAlgError('%d-th leading minor not positive definite' % 0)
+    return ab.copy()
+
+
+def cho_solve_banded(cb_and_lower, b, overwrite_b=False, check_finite=True):
+    import scipy.linalg
+    cb, lower = cb_and_lower
+    if not core.active() or not (is_objarr(cb) or is_objarr(b)):
+        return scipy.linalg.cho_solve_banded(cb_and_lower, b, overwrite_b=overwrite_b, check_finite=check_finite)
+    A = _band_to_dense(cb if is_objarr(cb) else to_exact(cb), lower)
+    n = len(A)
+    bb = b if is_objarr(b) else to_exact(b)
+    rhs = [bb[i] if isinstance(bb[i], Sym) else R.lift(bb[i]) for i in range(n)]
+    M = [row[:] for row in A]
+    # SPD (established by the cholesky_banded stub on this path): no pivoting needed
+    for c in range(n):
+        for r in range(c + 1, n):
+            if isinstance(M[r][c], R) and M[r][c].is_concrete() and M[r][c].v == 0:
+                continue
+            f = M[r][c] / M[c][c]
+            M[r] = [x - f * y for x, y in zip(M[r], M[c])]
+            rhs[r] = rhs[r] - rhs[c] * f
+    sol = [None] * n
+    for r in range(n - 1, -1, -1):
+        s = rhs[r]
+        for c in range(r + 1, n):
+            s = s - M[r][c] * sol[c]
+        sol[r] = s / M[r][r]
+    return _build_object(sol)
+
+
+def linalg_solve(a, b):
+    if core.active() and (is_objarr(a) or is_objarr(b)):
+        return exact_solve(a if is_objarr(a) else to_exact(a), b if is_objarr(b) else to_exact(b))
+    return _np.linalg.solve(a, b)
+
+
+def install_linalg():
+    from . import sx
+    sx.IMPORTS[('scipy.linalg', 'cholesky_banded')] = cholesky_banded
+    sx.IMPORTS[('scipy.linalg', 'cho_solve_banded')] = cho_solve_banded
+    sx.IMPORTS[('numpy.linalg', 'solve')] = linalg_solve
+    object.__getattribute__(linalg, '_over')['solve'] = linalg_solve
